@@ -251,6 +251,10 @@ package scipipe
 //@   loop 2 invariant first-piece: len(hashPcs) >= 1 && hashPcs[0] == t.Name && t == old(t)
 //@   loop 3 invariant first-piece: len(hashPcs) >= 1 && hashPcs[0] == t.Name && t == old(t)
 //@   loop 4 invariant first-piece: len(hashPcs) >= 1 && hashPcs[0] == t.Name && t == old(t)
+// Parameters and tags enter the hash with their RAW value (name_value): a normalised value would give tasks that differ
+// only in a parameter or tag value the same directory.
+//@   loop 3 step appends-name_value-of-the-parameter-raw[C14]: len(hashPcs) == len(prev(hashPcs)) + 1 && hashPcs[len(hashPcs) - 1] == paramName + "_" + t.Params[paramName]
+//@   loop 4 step appends-name_value-of-the-tag-raw[C14]: len(hashPcs) == len(prev(hashPcs)) + 1 && hashPcs[len(hashPcs) - 1] == tagName + "_" + t.Tags[tagName]
 
 //@ func (*Task).tempDirsExist(t) (res)
 //@   props C03
@@ -500,7 +504,7 @@ package scipipe
 //@   modifies fresh, BaseIP.auditInfo, locked, effCreated, effMkdir, fsEpoch, map[string]string, map[string]*AuditInfo
 //@   ensures only-audit-files[C01]: forall p string :: effCreated[p] && !old(effCreated)[p] ==> auditFileOf(t, p)
 //@   ensures every-output-carries-the-record[C10]: exists a *AuditInfo :: recordOf(t, a, startTime, finishTime) && outFilesRecorded(t, a) && (forall o string :: o in t.OutIPs ==> t.OutIPs[o].auditInfo == a)
-//@   ensures upstream-records-linked-by-path[C10,C11]: old(inputsDistinct(t)) ==> exists a *AuditInfo :: recordOf(t, a, startTime, finishTime) && (forall o string :: o in t.OutIPs ==> t.OutIPs[o].auditInfo == a) && ((exists o string :: o in t.OutIPs) ==> upstreamLinked(t, a))
+//@   ensures upstream-records-linked-by-path[C10,C11,C18]: old(inputsDistinct(t)) ==> exists a *AuditInfo :: recordOf(t, a, startTime, finishTime) && (forall o string :: o in t.OutIPs ==> t.OutIPs[o].auditInfo == a) && ((exists o string :: o in t.OutIPs) ==> upstreamLinked(t, a))
 //@   ensures audit-file-written-for-every-output[C10]: forall o string :: o in t.OutIPs ==> effCreated[t.OutIPs[o].path + ".audit.json"]
 //@   atcall (*FileIP).AddTags every-inputs-tags-are-merged-into-the-tasks-record[C10]: $arg0 == oip && $arg1 == iip.auditInfo.Tags && iip.auditInfo != nil && (old(inputsDistinct(t)) ==> oip.auditInfo == auditInfo)
 //@   loop 0 invariant rec: recordOf(t, auditInfo, startTime, finishTime) && freshRecord(auditInfo)
